@@ -1,6 +1,8 @@
 //! Replay on the REAL clock (no harness, no hooks installed: every shim is a pass-through) of the two observations of the
 //! C08 callers work.  Not run by ./check; `cargo run --offline --bin r_timed_late` in /verif/harness.
 //!
+//! Before fix 3916da2 / 03f0e0d: 180 ms and a panic; since then: 100 ms and Ok(1) after 200 ms (findings F35 / F36).
+//!
 //! 1. Cqueue::poll(Some(100 ms)) with one select coroutine that FINISHES after 80 ms (no event) and one that goes on:
 //!    the poller is woken by the Done event, finds nothing to return, and parks for the FULL timeout again
 //!    (`cur.park(timeout)` instead of what is left until the deadline): Timeout is reported after about 180 ms.
@@ -27,7 +29,15 @@ fn main() {
         })
     };
     h.join().unwrap();
-    let (_tx, rx) = may::sync::mpsc::channel::<u32>();
+    let (tx, rx) = may::sync::mpsc::channel::<u32>();
+    std::thread::spawn(move || {
+        std::thread::sleep(Duration::from_millis(200));
+        let _ = tx.send(1);
+    });
+    let t0 = Instant::now();
     let r = std::panic::catch_unwind(std::panic::AssertUnwindSafe(|| rx.recv_timeout(Duration::MAX)));
-    println!("recv_timeout(Duration::MAX) -> {}", if r.is_err() { "PANIC (overflow when adding duration to instant)" } else { "returned" });
+    match r {
+        Err(_) => println!("recv_timeout(Duration::MAX) -> PANIC (overflow when adding duration to instant)"),
+        Ok(v) => println!("recv_timeout(Duration::MAX) -> {:?} after {:?} (a message was sent after 200 ms)", v, t0.elapsed()),
+    }
 }
